@@ -153,10 +153,54 @@ class LinKernel(nn.Module):
         return self.c * input
 
 
+USER_FORMS = ["module", "sub:Scale", "sub:Huber", "sub:Cauchy", "sub:Tolerant", "sub:PseudoHuber", "sub:SoftLOne", "sub:Arctan",
+              "sub:PolyKernel", "lambda", "callable"]
+
+
+def user_kernel(form, c):
+    """the SAME user function rho(x) = c1 x + c2 x^2 + c3 x^3 in every shape a user may give it (lesson 21): a plain
+    nn.Module, a class DERIVED from a shipped kernel (constructed with valid base parameters) that overrides forward, a
+    subclass of a user class, a lambda, a callable object — dispatch by isinstance / class identity must not matter"""
+    c1, c2, c3 = c
+
+    def rho(x):
+        return c1 * x + c2 * (x * x) + c3 * (x * x * x)
+
+    if form in (None, "module"):
+        return PolyKernel(*c)
+    if form == "lambda":
+        return lambda x: c1 * x + c2 * (x * x) + c3 * (x * x * x)
+    if form == "callable":
+        class Callable:
+            def __call__(self, input):
+                return rho(input)
+        return Callable()
+    base = form.split(":", 1)[1]
+    Base = PolyKernel if base == "PolyKernel" else getattr(ppk(), base)
+
+    class UserKernel(Base):
+        def __init__(self):
+            if base == "PolyKernel":
+                Base.__init__(self, 9.0, 9.0, 9.0)
+            elif base == "Tolerant":
+                Base.__init__(self, 1.0, -1.0)
+            else:
+                Base.__init__(self, 1.0)
+            self.armed = False
+
+        def forward(self, input):
+            if getattr(self, "armed", False):
+                raise RuntimeError("user kernel callback raises (armed by the harness)")
+            return rho(input)
+
+    UserKernel.__name__ = f"User{base}"
+    return UserKernel()
+
+
 def build_kernel(spec):
     k, p = spec["kind"], spec["p"]
     if k == "poly":
-        return LinKernel(p[0]) if spec.get("affine") else PolyKernel(*p)
+        return LinKernel(p[0]) if spec.get("affine") else user_kernel(spec.get("form"), p)
     K = ppk()
     if k == "tolerant":
         return K.Tolerant(a=p[0], b=p[1]) if spec.get("kwargs") else K.Tolerant(p[0], p[1])
@@ -676,6 +720,11 @@ def corrector_data(case):
     spec = case["spec"]
     s0 = math.sqrt(own_scale(spec)) if spec["kind"] != "poly" else case.get("xref", 1.0) ** 0.5
     rows = []
+    if case.get("rows"):
+        rows_ = case["rows"]
+        R_ = torch.tensor(rows_, dtype=DT[dtn]).reshape(list(case["batch"]) + [d])
+        J_ = torch.tensor([[rng.gauss(0, 1) for _ in range(p)] for _ in range(len(rows_) * d)], dtype=DT[dtn]).reshape(len(rows_) * d, p)
+        return R_, J_
     if case.get("regimes"):
         return regime_batch(case)
     sw = sweep_mults(dtn, 1.0) if case.get("sweep") else None
@@ -999,7 +1048,7 @@ def run_corrector(ctx: Ctx, cases):
     pool = {}
     for case in cases:
         spec = case["spec"]
-        key = (case["which"], spec["kind"], tuple(spec["p"]), bool(spec.get("affine")))
+        key = (case["which"], spec["kind"], tuple(spec["p"]), bool(spec.get("affine")), spec.get("form"))
         if key not in pool:
             kobj = build_kernel(spec)
             pool[key] = (build_corrector(case["which"], kobj), build_corrector("fast", kobj))
@@ -1042,6 +1091,8 @@ def gen_corrector_case(rng, which, kind, regime=None):
         case["regime"] = regime
         case["spec"] = {"kind": "poly", "p": [1.0, 0.0, 0.0]}
         case["spec"] = choose_poly(case)
+        if not case["spec"].get("affine"):
+            case["spec"]["form"] = rng.choice(USER_FORMS)
     else:
         case["spec"] = gen_spec(rng, kind)
     return case
@@ -1560,7 +1611,8 @@ def gen_select_case(rng):
     kspecs = []
     for kd in kinds:
         if kd == "poly":
-            kspecs.append({"kind": "poly", "p": [rng.choice([1.0, 0.5]), rng.choice([0.3, 0.05, 1.0]), rng.choice([0.0, 0.02])]})
+            kspecs.append({"kind": "poly", "p": [rng.choice([1.0, 0.5]), rng.choice([0.3, 0.05, 1.0]), rng.choice([0.0, 0.02])],
+                           "form": rng.choice([f for f in USER_FORMS if f.startswith(("sub", "module"))])})
         else:
             kspecs.append(gen_spec(rng, kd))
 
@@ -1880,7 +1932,7 @@ def check_history(ctx: Ctx, case, lines=None, metas=None):
                 flat = bad[0].reshape(-1)
                 flat[rng.randrange(flat.numel())] = -abs(float(own_scale(spec))) * 0.3 - 1e-3
                 how = "negative"
-            elif spec["kind"] == "poly":
+            elif spec["kind"] == "poly" and hasattr(kobj, "armed"):
                 kobj.armed = True
                 how = "callback"
             elif which == "fast":
@@ -1922,7 +1974,6 @@ def check_history(ctx: Ctx, case, lines=None, metas=None):
             if call.get("ptype") == "parameter" and layout not in ("alias", "inplace"):
                 views = tuple(nn.Parameter(v, requires_grad=bool(ci % 2)) if v.is_floating_point() else v for v in views)
             before = [b.detach().clone() for b in bases]
-            ref = apply_obj(which, fresh, tuple(t.clone() for t in ref_in), "plain", True)
         except Exception as e:
             hfail(ctx, cc, f"history-raises: preparing / fresh {which}({spec['kind']}) call {ci} raises {type(e).__name__}: {str(e)[:120]}")
             held = None
@@ -1942,6 +1993,13 @@ def check_history(ctx: Ctx, case, lines=None, metas=None):
                          f"{'keyword' if kwm else 'positional'}, shapes {[tuple(t.shape) for t in ref_in]}) raises {type(e).__name__}: {str(e)[:120]}")
             held = None
             continue            # the object lives on: later calls of the history are still checked
+        # the reference AFTER the real call: a fresh object must not warm any module-level cache before the call under test
+        try:
+            ref = apply_obj(which, fresh, tuple(t.clone() for t in ref_in), "plain", True)
+        except Exception as e:
+            hfail(ctx, cc, f"history-raises: a fresh {which}({spec['kind']}) on plain contiguous copies raises after call {ci} (grad mode {gmode}): {type(e).__name__}: {str(e)[:120]}")
+            held = None
+            continue
         held = tuple(v.detach() if isinstance(v, nn.Parameter) else v for v in views)
         held_key = key
         held_alias = layout == "alias" and which != "kernel"
@@ -2158,6 +2216,163 @@ def guard(ctx: Ctx, case, fn):
         return None
 
 
+# ----------------------------------------------------------------------------- lessons 19 and 23 (round 4)
+
+def mode_order_cases():
+    """lesson 23: a module-level cache filled under one grad mode and read under another. Two INSTANCES of the same kernel /
+    corrector, one shape/dtype key per history that no other part of the run uses (these histories run first, so the key is
+    fresh in the process for the first mode), the grad modes in several orders on that same key."""
+    out = []
+    keys = [([17], 5, 3), ([19, 1], 2, 1), ([1, 23], 4, 2), ([29], 1, 1), ([31, 1, 1], 6, 2), ([37], 3, 3), ([41], 5, 1), ([43, 1], 3, 2),
+            ([47], 6, 1), ([53], 2, 2), ([1, 59], 1, 3), ([61], 4, 1)]
+    orders = [["no_grad", "plain", "req_R", "graph", "enable_grad"], ["inference", "plain", "req_both", "no_grad"],
+              ["plain", "no_grad", "inference", "req_J", "graph"], ["enable_grad", "inference", "graph", "plain"],
+              ["req_R", "no_grad", "plain"], ["graph", "inference", "no_grad", "req_both"]]
+    specs = [("kernel", {"kind": kd, "p": [float(v) for v in CORPUS_SPECS[kd][1]]}) for kd in BUILTIN] + [
+             ("fast", {"kind": "cauchy", "p": [0.5, 0.0, 0.0]}), ("triggs", {"kind": "cauchy", "p": [0.5, 0.0, 0.0]}),
+             ("triggs", {"kind": "poly", "p": [1.0, 0.5, 0.0], "form": "sub:Scale"}), ("fast", {"kind": "scale", "p": [0.5, 0.0, 0.0]})]
+    for si, (which, spec) in enumerate(specs):
+        for oi in range(2):
+            batch, d, p = keys[(2 * si + oi) % len(keys)] if which == "kernel" else keys[(si + 5 * oi) % len(keys)]
+            if which == "kernel":
+                batch, d = [], 67 + 2 * si + oi          # kernels: a 1-D length no other part of the run uses
+            dtn = "float32" if (si + oi) % 2 else "float64"
+            calls = []
+            # kernels work under inference_mode: their first history always STARTS there (the poisoning order), the second varies
+            for ci, gm in enumerate(orders[(si + oi) % len(orders)] if which != "kernel" else (orders[1] if oi == 0 else orders[si % len(orders)])):
+                call = {"obj": ci % 2, "dtype": dtn, "layout": "contig", "data_seed": 9900 + 7 * si + ci, "zero": False, "gmode": gm,
+                        "kw": True, "ptype": "tensor", "mutate_out": False}
+                if which == "kernel":
+                    call["shape"] = batch + [d]
+                else:
+                    call["batch"], call["d"], call["p"] = batch, d, p
+                calls.append(call)
+            out.append({"stream": "history", "which": which, "spec": spec, "calls": calls, "data_seed": 5151 + si,
+                        "objects": [{"which": which, "kernel": 0}, {"which": which, "kernel": 1}], "kernels": [spec, spec]})
+    return out
+
+
+LARGE_SIZES_QUICK = [16384, 16385, 65536, 65537]
+LARGE_SIZES_THOROUGH = [2 ** k + e for k in range(10, 17) for e in (-1, 0, 1)] + [131073]
+
+
+def large_inputs(which, spec, dtn, n, d, p, seed):
+    g = torch.Generator().manual_seed(seed)
+    s0 = own_scale(spec) if spec["kind"] != "poly" else 1.0
+    cap = x_cap(spec, dtn)
+    if which == "kernel":
+        u = torch.rand(n, generator=g, dtype=torch.float64)
+        x = (s0 * torch.exp(12 * u - 6)).clamp(max=cap)
+        x[torch.rand(n, generator=g) < 0.02] = 0.0
+        x[-1] = s0 * 1.37                  # the LAST element is an ordinary one
+        return (x.to(DT[dtn]),)
+    u = torch.rand(n, 1, generator=g, dtype=torch.float64)
+    nv = math.sqrt(s0) * torch.exp(6 * u - 3) if spec["kind"] != "poly" else torch.exp(3 * u - 2.5)
+    dirs = torch.randn(n, d, generator=g, dtype=torch.float64)
+    R = nv * dirs / dirs.norm(dim=-1, keepdim=True).clamp(min=1e-12)
+    if spec["kind"] != "poly":
+        R[torch.rand(n, generator=g) < 0.02] = 0.0
+    R[-1] = math.sqrt(s0 if spec["kind"] != "poly" else 1.0) * 0.8 * torch.ones(d, dtype=torch.float64) / math.sqrt(d)
+    J = torch.randn(n * d, p, generator=g, dtype=torch.float64)
+    return R.to(DT[dtn]), J.to(DT[dtn])
+
+
+def run_large(ctx: Ctx):
+    """lesson 19: batches of 2^k, 2^k +- 1 items (> 2^14 and > 2^16 in quick) in several shapes. Model-free oracles: the call on the
+    whole batch equals the calls on two parts stacked (several cut points) and the call on single items (first / LAST / random);
+    then the Lean model and the laws on a sample that contains the last item."""
+    rng = ctx.rng
+    sizes = LARGE_SIZES_QUICK if ctx.quick else LARGE_SIZES_THOROUGH
+    jobs = []
+    for n in sizes:
+        for kind in (BUILTIN if n in (16385, 65537) or not ctx.quick else [rng.choice(BUILTIN)]):
+            jobs.append(("kernel", gen_spec(rng, kind) if kind != "tolerant" else {"kind": kind, "p": [1.0, -0.1, 0.0]}, n))
+        for which in ("fast", "triggs"):
+            for spec in ({"kind": "cauchy", "p": [0.7, 0.0, 0.0]}, {"kind": "huber", "p": [1.0, 0.0, 0.0]},
+                         {"kind": "poly", "p": [1.0, 0.5, 0.0], "form": rng.choice(USER_FORMS)}):
+                jobs.append((which, spec, n))
+    lines, metas = [], []
+    for which, spec, n in jobs:
+        dtn = rng.choice(["float64", "float32"])
+        eps = common.EPS[dtn]
+        d, p = (1, 1) if which == "kernel" else (rng.choice([1, 2, 3]), rng.choice([1, 2]))
+        case = {"stream": "large", "which": which, "spec": spec, "dtype": dtn, "n": n, "d": d, "p": p, "data_seed": rng.randrange(1 << 30)}
+        shapes = [[n]] + [[a, n // a] for a in (16, 256) if n % a == 0] + [[1, n]]
+        case["batch"] = rng.choice(shapes)
+        ctx.note_case(("large", which, spec["kind"], n, tuple(case["batch"]), dtn), True)
+        ctx.count(f"large.{which}.n{n}")
+
+        def body():
+            tin = large_inputs(which, spec, dtn, n, d, p, case["data_seed"])
+            kobj = build_kernel(spec)
+            obj = kobj if which == "kernel" else build_corrector(which, kobj)
+
+            def call(ts, batch=None):
+                if which == "kernel":
+                    return (obj(ts[0].reshape(batch) if batch else ts[0]).reshape(-1),)
+                r, j = obj(R=ts[0].reshape(list(batch) + [d]) if batch else ts[0], J=ts[1])
+                return r.detach().reshape(-1, d), j.detach()
+            full = call(tin, case["batch"])
+            # vector lanes vs scalar tails may round the transcendental functions differently: absolute slack of a few ulps of the
+            # formula's own intermediates (kernels) / of the item scale (Triggs' rank-one part)
+            kex = 16 * eps * (val_scale(spec, 0.0) + val_scale(spec, own_scale(spec))) if which == "kernel" and spec["kind"] != "poly" else None
+            for o in full:
+                if not bool(torch.isfinite(o).all()):
+                    bad = int((~torch.isfinite(o.reshape(o.shape[0], -1)).all(-1)).nonzero()[0])
+                    ctx.fail(case, f"large-finite: {which}({spec['kind']}) on {n} items (shape {case['batch']}): non-finite output at flat row {bad} of {o.shape[0]}")
+                    return
+            # split consistency
+            for a in sorted({1, n // 2, n - 1, 16384 if n > 16384 else n // 3}):
+                if which == "kernel":
+                    parts = [call((tin[0][:a],)), call((tin[0][a:],))]
+                else:
+                    parts = [call((tin[0][:a], tin[1][:a * d])), call((tin[0][a:], tin[1][a * d:]))]
+                for oi_, o in enumerate(full):
+                    st = torch.cat([parts[0][oi_], parts[1][oi_]])
+                    if not close_to(st, o, eps, kex if which == "kernel" else (16 * eps * o.double().abs().amax() * 4 if which == "triggs" and oi_ == 1 else None)):
+                        diff = (st.double() - o.double()).abs().reshape(o.shape[0], -1).amax(-1)
+                        ctx.fail(case, f"large-split: {which}({spec['kind']}) on {n} items: f(x) != cat(f(x[:{a}]), f(x[{a}:])) — first differing flat row "
+                                       f"{int((diff > 0).nonzero()[0])}, max |diff| {float(diff.max()):.3e}")
+                        return
+            # single items: first, LAST, random
+            idx = sorted({0, n - 1, n - 2} | {rng.randrange(n) for _ in range(5)})
+            for i in idx:
+                if which == "kernel":
+                    alone = call((tin[0][i:i + 1],))
+                    ok = close_to(alone[0], full[0][i:i + 1], eps, kex)
+                else:
+                    alone = call((tin[0][i:i + 1], tin[1][i * d:(i + 1) * d]))
+                    ok = close_to(alone[0], full[0][i:i + 1], eps) and close_to(alone[1], full[1][i * d:(i + 1) * d], eps,
+                                                                                   16 * eps * alone[1].double().abs().amax() * 4 if which == "triggs" else None)
+                if not ok:
+                    ctx.fail(case, f"large-item: {which}({spec['kind']}) on {n} items (shape {case['batch']}): item {i}{' (the last one)' if i == n - 1 else ''} differs from the call on that item alone")
+                    return
+            # the model and the laws on the sample
+            sel = torch.tensor(idx)
+            if which == "kernel":
+                xs_, ys_ = tin[0][sel], full[0][sel]
+                sub = {**case, "shape": [len(idx)]}
+                if spec["kind"] != "poly":
+                    kernel_value_oracle(ctx, sub, spec, dtn, xs_, ys_)
+                lines.append(kernel_line(sub, xs_))
+                metas.append((sub, xs_, ys_))
+            else:
+                Rs_, Js_ = tin[0][sel], tin[1].reshape(n, d, p)[sel].reshape(len(idx) * d, p)
+                Ro_, Jo_ = full[0][sel], full[1].reshape(n, d, p)[sel].reshape(len(idx) * d, p)
+                sub = {**case, "batch": [len(idx)]}
+                msk = corrector_oracles(ctx, sub, Rs_, Js_, Ro_, Jo_)
+                if msk is not None:
+                    lines.append(corrector_line(sub, Rs_, Js_))
+                    metas.append((clean(sub) | {"_mask": [bool(m) for m in msk]}, Rs_, Js_, Ro_, Jo_))
+        guard(ctx, case, body)
+    reps = ctx.driver.run(lines)
+    for rep, meta in zip(reps, metas):
+        if len(meta) == 3:
+            compare_kernel(ctx, meta[0], meta[1], meta[2], rep)
+        else:
+            compare_corrector(ctx, meta[0], meta[1], meta[2], meta[3], meta[4], rep, stream="large")
+
+
 # ----------------------------------------------------------------------------- case lists
 
 def gen_cases(ctx: Ctx, rng, scale=1.0):
@@ -2302,11 +2517,12 @@ def corner_corpus():
                             Cr.append({"stream": which, "which": which, "dtype": dtn, "batch": [len(lin_sweep(spec))], "d": 1, "p": 1,
                                        "data_seed": 4, "nograd": True, "force_zero_row": False, "linsweep": True, "spec": spec})
     for reg, pr in CORPUS_POLY:
-        spec = {"kind": "poly", "p": pr, **({"affine": True} if reg == "affine" else {})}
-        for dtn in ("float32", "float64"):
-            for which in ("fast", "triggs"):
-                Cr.append({"stream": which, "which": which, "dtype": dtn, "batch": [8], "nitems": 8, "d": 3, "p": 2, "data_seed": 50,
-                           "nograd": False, "force_zero_row": False, "regimes": True, "regime": reg, "spec": spec})
+        for form in (USER_FORMS if reg != "affine" else ["module"]):
+            spec = {"kind": "poly", "p": pr, **({"affine": True} if reg == "affine" else {"form": form})}
+            for dtn in (("float32", "float64") if form == "module" else ("float64",)):
+                for which in ("fast", "triggs"):
+                    Cr.append({"stream": which, "which": which, "dtype": dtn, "batch": [8], "nitems": 8, "d": 3, "p": 2, "data_seed": 50,
+                               "nograd": form.startswith("sub"), "force_zero_row": False, "regimes": True, "regime": reg, "spec": spec})
     # object histories: fixed call sequences through every layout and both dtypes
     for which, kinds in (("kernel", ["huber", "tolerant", "cauchy"]), ("fast", ["huber", "cauchy", "scale"]),
                          ("triggs", ["huber", "arctan", "tolerant", "scale"])):
@@ -2344,7 +2560,9 @@ def corner_corpus():
     for which, spec in (("kernel", {"kind": "huber", "p": [2.0, 0.0, 0.0], "int": True}), ("kernel", {"kind": "huber", "p": [3.0, 0.0, 0.0], "int": True, "kwargs": True}),
                         ("kernel", {"kind": "pseudohuber", "p": [3.0, 0.0, 0.0], "int": True}), ("kernel", {"kind": "tolerant", "p": [1.0, -0.05, 0.0], "kwargs": True}),
                         ("fast", {"kind": "cauchy", "p": [0.5, 0.0, 0.0]}), ("triggs", {"kind": "cauchy", "p": [0.5, 0.0, 0.0]}),
-                        ("triggs", {"kind": "poly", "p": [1.0, 0.5, 0.0]}), ("fast", {"kind": "poly", "p": [0.7, 0.0, 0.0], "affine": True}),
+                        ("triggs", {"kind": "poly", "p": [1.0, 0.5, 0.0]}), ("triggs", {"kind": "poly", "p": [1.0, 0.5, 0.0], "form": "sub:Huber"}),
+                        ("triggs", {"kind": "poly", "p": [0.5, 0.25, 0.1], "form": "sub:Scale"}), ("fast", {"kind": "poly", "p": [1.0, 0.5, 0.0], "form": "sub:Tolerant"}),
+                        ("fast", {"kind": "poly", "p": [0.7, 0.0, 0.0], "affine": True}),
                         ("triggs", {"kind": "scale", "p": [0.5, 0.0, 0.0]}), ("triggs", {"kind": "huber", "p": [1.0, 0.0, 0.0], "int": True})):
         calls = []
         for gi, gm in enumerate(GMODES):
@@ -2365,13 +2583,26 @@ def corner_corpus():
     for oi, (k0, k1) in enumerate((("cauchy", "huber"), ("tolerant", "scale"), ("arctan", "pseudohuber"))):
         ksp = [{"kind": k0, "p": [float(v) for v in CORPUS_SPECS[k0][1]]}, {"kind": k1, "p": [float(v) for v in CORPUS_SPECS[k1][1]]}]
         H.append(gen_history_case(random.Random(3100 + oi), "fast", ksp[0], ncalls=24, objects=multi_objects(random.Random(3200 + oi), ksp), kernels=ksp))
+    # exact coincidences (lesson 20): |R_i|^2 == delta^2 bit for bit with a GENERIC direction (3-4-5 triples scaled by powers of two),
+    # both signs, next to zero rows and duplicates; x == a for Tolerant
+    for dtn in ("float32", "float64"):
+        for which in ("fast", "triggs"):
+            Cr.append({"stream": which, "which": which, "dtype": dtn, "batch": [8], "d": 3, "p": 2, "data_seed": 21, "nograd": False,
+                       "force_zero_row": False, "spec": {"kind": "huber", "p": [2.5, 0.0, 0.0]},
+                       "rows": [[1.5, 2.0, 0.0], [-2.0, 0.0, 1.5], [0.0, -1.5, -2.0], [2.5, 0.0, 0.0], [0.0, 0.0, 0.0], [1.5, 2.0, 0.0],
+                                [0.75, 1.0, 0.0], [3.0, 4.0, 0.0]]})
+            Cr.append({"stream": which, "which": which, "dtype": dtn, "batch": [4], "d": 2, "p": 1, "data_seed": 22, "nograd": True,
+                       "force_zero_row": False, "spec": {"kind": "tolerant", "p": [6.25, -0.125, 0.0]},
+                       "rows": [[1.5, 2.0], [2.0, -1.5], [0.0, 2.5], [0.0, 0.0]]})
     # sign change of rho'' inside the batch, approached geometrically from both sides (mask threshold)
     for dtn in ("float32", "float64"):
         Cr.append({"stream": "triggs", "which": "triggs", "dtype": dtn, "batch": [2 * (20 if dtn == "float32" else 44) + 1], "d": 2, "p": 2,
                    "data_seed": 8, "nograd": True, "force_zero_row": False, "sweep": True, "regime": "mixed-sweep",
                    "spec": {"kind": "poly", "p": [1.0, -0.05, 0.05 / 3.0]}, "xref": 1.0})
     # every syntactic form of kernel= / corrector=
-    kspecs = [{"kind": "huber", "p": [0.4, 0.0, 0.0]}, {"kind": "cauchy", "p": [1.5, 0.0, 0.0]}, {"kind": "poly", "p": [1.0, 0.3, 0.0]}]
+    kspecs = [{"kind": "huber", "p": [0.4, 0.0, 0.0]}, {"kind": "cauchy", "p": [1.5, 0.0, 0.0]}, {"kind": "poly", "p": [1.0, 0.3, 0.0], "form": "sub:Scale"}]
+    kspecs_sub = [{"kind": "poly", "p": [1.0, 0.3, 0.0], "form": "sub:Tolerant"}, {"kind": "poly", "p": [0.5, 0.5, 0.02], "form": "sub:Huber"},
+                  {"kind": "poly", "p": [1.0, 0.05, 0.0], "form": "sub:Cauchy"}]
     for nres in (1, 3):
         kforms = [None, ["one", 1], ["many", [2]], ["many", list(range(nres))], ["many", [None] + list(range(1, nres))] if nres > 1 else ["many", [None]]]
         if nres == 3:
@@ -2382,8 +2613,10 @@ def corner_corpus():
                 cforms.append(["many", [None if v is None else 2 * v + 1 for v in kf[1]]])
             for cf in cforms:
                 for oi, opt in enumerate(("GN", "LM")):
+                    # every second configuration uses a pool of USER kernels derived from shipped classes (lesson 21)
+                    pool = kspecs if (len(S) // 2) % 2 == 0 else kspecs_sub
                     S.append({"stream": "select", "opt": opt, "dtype": "float64" if (len(S) % 3) else "float32", "p": 2,
-                              "shapes": [[2, 3], [1, 1], [3, 2]][:nres], "kspecs": kspecs, "karg": kf, "carg": cf, "tuple": bool(len(S) % 2),
+                              "shapes": [[2, 3], [1, 1], [3, 2]][:nres], "kspecs": pool, "karg": kf, "carg": cf, "tuple": bool(len(S) % 2),
                               "damping": 1e-3, "data_seed": 600 + len(S), **select_extras(random.Random(5000 + len(S)), nres)})
     return K, Ng, Cr, H, S
 
@@ -2393,7 +2626,8 @@ def gen_history_cases(ctx, rng, scale=1.0):
     for which in ("kernel", "fast", "triggs"):
         for i in range(max(1, int(ctx.pick(8, 60) * scale))):
             kind = rng.choice(BUILTIN + (["poly"] if which != "kernel" else []))
-            spec = gen_spec(rng, kind) if kind != "poly" else {"kind": "poly", "p": [rng.choice([1.0, 0.4]), rng.choice([0.0, 0.2, 1.0]), rng.choice([0.0, 0.05])]}
+            spec = gen_spec(rng, kind) if kind != "poly" else {"kind": "poly", "p": [rng.choice([1.0, 0.4]), rng.choice([0.0, 0.2, 1.0]), rng.choice([0.0, 0.05])],
+                                                               "form": rng.choice(USER_FORMS)}
             out.append(gen_history_case(rng, which, spec, ncalls=rng.randint(4, 7)))
     for i in range(max(1, int(ctx.pick(8, 60) * scale))):
         k0, k1 = rng.sample(BUILTIN, 2)
@@ -2408,6 +2642,7 @@ def run(ctx: Ctx):
     # 1. deterministic corner corpus (seed-independent), first
     K, Ng, Cr, H, S = corner_corpus()
     ctx.count("corpus.cases", len(K) + len(Ng) + len(Cr) + len(H) + len(S))
+    run_history(ctx, mode_order_cases())          # first: their shape keys must be fresh in the process (lesson 23)
     run_ctor(ctx)
     run_kernel(ctx, K)
     run_negative(ctx, Ng)
@@ -2421,6 +2656,7 @@ def run(ctx: Ctx):
     run_corrector(ctx, corr_cases)
     run_history(ctx, gen_history_cases(ctx, ctx.rng))
     run_select(ctx, select_cases)
+    run_large(ctx)
 
 
 def search(ctx: Ctx):
@@ -2478,6 +2714,9 @@ def replay(ctx: Ctx, case) -> bool:
         check_select(ctx, c)
     elif st == "ctor":
         run_ctor(ctx)
+    elif st == "large":
+        ctx.rng = random.Random(c["data_seed"])
+        run_large(ctx)
     elif st == "history":
         c.pop("call", None)
         lines, metas = [], []
